@@ -66,6 +66,9 @@ func main() {
 	run := fs.Int("run", 0, "run index")
 	sampleEvery := fs.Int("sample-every", 0, "attach the case of every n-th run")
 	noShrink := fs.Bool("no-shrink", false, "do not minimise")
+	genSub := fs.Bool("gen-subprocess", false, "generate the cases of each chunk in a separate process")
+	from := fs.Int("from", 0, "genchunk: first run")
+	to := fs.Int("to", 0, "genchunk: one past the last run")
 	fs.Parse(os.Args[2:])
 	kernel.VerifSeed = *vseed
 	kernel.ReferenceOnly = os.Getenv("VERIF_REFERENCE_ONLY") == "1"
@@ -73,7 +76,19 @@ func main() {
 	switch cmd {
 	case "serve":
 		eng := mustEngine(*engName)
+		genSeparately = *genSub
 		serve(eng, *vseed, *tier, *replayDir, *sampleEvery, *noShrink)
+	case "genchunk":
+		// one JSON line per run: {"run": r, "case": ...}
+		eng := mustEngine(*engName)
+		for r := *from; r < *to; r++ {
+			c, err := eng.Generate(kernel.RunSeed(*vseed, eng.Property(), r), *tier, r)
+			if err != nil {
+				emit(line{T: "gen", Run: r, Err: err.Error()})
+				continue
+			}
+			emit(line{T: "gen", Run: r, Case: c})
+		}
 	case "gen":
 		eng := mustEngine(*engName)
 		seed := kernel.RunSeed(*vseed, eng.Property(), *run)
@@ -169,17 +184,54 @@ func serve(eng kernel.Engine, vseed uint64, tier, replayDir string, sampleEvery 
 		if _, err := fmt.Sscanf(txt, "%d %d", &from, &to); err != nil {
 			fatal("bad chunk line:", txt)
 		}
+		pre := map[int]line{}
+		if genSeparately {
+			// The cases are generated by another process: generation calls into the library
+			// (fonts, cmaps, script lookups) and would otherwise fill, race-free and before any
+			// task runs, package-level state that the library initialises lazily on first use.
+			cmd := exec.Command(os.Args[0], "genchunk", "-engine", eng.Name(), "-seed", fmt.Sprint(vseed), "-tier", tier,
+				"-from", fmt.Sprint(from), "-to", fmt.Sprint(to))
+			cmd.Stderr = os.Stderr
+			b, err := cmd.Output()
+			if err != nil {
+				fatal("genchunk:", err)
+			}
+			for _, ln := range bytes.Split(b, []byte("\n")) {
+				var l line
+				if len(ln) > 0 && json.Unmarshal(ln, &l) == nil && l.T == "gen" {
+					pre[l.Run] = l
+				}
+			}
+		}
 		for r := from; r < to; r++ {
-			oneRun(eng, vseed, tier, replayDir, r, sampleEvery, noShrink)
+			if genSeparately {
+				if _, ok := pre[r]; !ok {
+					fatal("genchunk produced no case for run", r)
+				}
+			}
+			oneRun(eng, vseed, tier, replayDir, r, sampleEvery, noShrink, pre)
 		}
 		emit(line{T: "chunkdone", Run: to})
 	}
 }
 
-func oneRun(eng kernel.Engine, vseed uint64, tier, replayDir string, r, sampleEvery int, noShrink bool) {
+// genSeparately: serve obtains the cases of a chunk from a `genchunk` sub-process
+var genSeparately bool
+
+func oneRun(eng kernel.Engine, vseed uint64, tier, replayDir string, r, sampleEvery int, noShrink bool, pre map[int]line) {
 	seed := kernel.RunSeed(vseed, eng.Property(), r)
 	emit(line{T: "start", Run: r, Seed: seed}) // write-ahead: the orchestrator knows what was in flight
-	c, err := eng.Generate(seed, tier, r)
+	var c json.RawMessage
+	var err error
+	if p, ok := pre[r]; ok {
+		if p.Err != "" {
+			emit(line{T: "error", Run: r, Err: "generate: " + p.Err})
+			return
+		}
+		c = p.Case
+	} else {
+		c, err = eng.Generate(seed, tier, r)
+	}
 	if err != nil {
 		emit(line{T: "error", Run: r, Err: "generate: " + err.Error()})
 		return
